@@ -6,7 +6,7 @@
 From Coq Require Import ZArith QArith Qabs Qreals List Reals Lra Lia Bool.
 From Coquelicot Require Import Complex.
 From PyqspV Require Import Base.Ops Model.LPolyM Model.LAlgM Model.QInst Model.Checkers
-  Theory.RingK Theory.LPolyT Theory.CplxT Theory.QInstT Theory.QC Theory.CornerT Theory.SupT.
+  Theory.RingK Theory.LPolyT Theory.CplxT Theory.QInstT Theory.QC Theory.CornerT Theory.SupT Theory.C04T.
 Import ListNotations.
 Open Scope R_scope.
 
@@ -77,4 +77,20 @@ Corollary target_admissible odd c theta : (Qnorm1 c <= 9 # 10)%Q ->
 Proof.
   intros H. eapply Rle_trans; [apply target_circle_bound|].
   apply Qle_Rle in H. replace (Q2R (9 # 10)) with (9 / 10) in H by (unfold Q2R; cbn; lra). exact H.
+Qed.
+
+(* the whole family at once: a definite-parity Chebyshev vector of 1-norm <= 0.9 has a Laurent form F with
+   |1 - F(w) F(1/w)| >= 1 - 0.81 = 0.19 on the whole unit circle - the polynomial whose roots the completion
+   splits has no root on (or near) the circle for any member, any degree, either parity *)
+Theorem family_no_unit_roots odd c theta : (Qnorm1 c <= 9 # 10)%Q ->
+  let F := lpQ2C (cheb_to_laurent odd c) in
+  19 / 100 <= Cmod (Cminus (RtoC 1) (Cmult (evx CR (cis theta) (cis (- theta)) F) (evx CR (cis (- theta)) (cis theta) F))).
+Proof.
+  intros H F.
+  assert (Hn : sumR (map Cmod (lp_coefs F)) <= 9 / 10).
+  { unfold F. rewrite cheb_to_laurent_norm1. fold (n1 c). unfold n1. rewrite <- Qnorm1_ok.
+    apply Qle_Rle in H. replace (Q2R (9 # 10)) with (9 / 10) in H by (unfold Q2R; cbn; lra). exact H. }
+  assert (H0 : 0 <= sumR (map Cmod (lp_coefs F))).
+  { unfold F. rewrite cheb_to_laurent_norm1. apply n1_nonneg. }
+  eapply Rle_trans; [|apply (no_unit_roots F theta); lra]. nra.
 Qed.
